@@ -41,8 +41,11 @@ def _loss(st, nbytes, clean, m, kinds, wb, wa, retry=False, nsub=False):
     cbl = []
     retried = []
 
+    lazy = []        # (outcome, deferred): callers that keep the Deferred and only look at it after the loss
+
     def watch(d, label):
-        """Outcome recorder; with retry the command's errback submits one more command (retry-on-failure)"""
+        """Outcome recorder; with retry the command's errback submits one more command (retry-on-failure).  Every second pre-loss
+        command belongs to a caller that has not attached anything to its Deferred yet when the connection drops"""
         o = fakes.Outcome()
         if retry:
             def again(f):
@@ -51,8 +54,12 @@ def _loss(st, nbytes, clean, m, kinds, wb, wa, retry=False, nsub=False):
                     outs.append(fakes.Outcome(p.queue_command('GETINFO retry-of-' + label)))
                 return f
             d.addErrback(again)
+        elif not lost[0] and len(outs) % 2 == 1:
+            lazy.append((o, d))
+            return o
         o.watch(d)
         return o
+    lost = [False]
 
     with api.no_tracing():     # concrete prefix of the session
         if st in (7, 8, 9):
@@ -105,6 +112,9 @@ def _loss(st, nbytes, clean, m, kinds, wb, wa, retry=False, nsub=False):
             p.dataReceived(NEXT_LINE[:nbytes])
         before = t.value()
         p.connectionLost(Failure(ConnectionDone() if clean else ConnectionLost()))
+        lost[0] = True
+        for o_, d_ in lazy:
+            o_.watch(d_)
         for i in range(m):
             outs.append(watch(p.queue_command('GETINFO post%d' % i, cbl.append if kinds[i] else None), 'post%d' % i))
         for _ in range(wa):
